@@ -102,6 +102,7 @@ static std::string bclass(uint16_t h)
 static const char* volatile g_fn = "startup";
 static volatile uint32_t g_a = 0, g_b = 0, g_c = 0;
 static volatile int g_nargs = 0;
+static volatile uint64_t g_a64 = 0;   // operand of the double entry points
 #define CUR(fn) (g_fn = (fn))
 
 // a hard crash (SIGFPE/SIGSEGV/SIGILL from a trapping bounds check/...) is attributed to the operands being evaluated:
@@ -110,8 +111,8 @@ static void crash_hook(const char* signame)
 {
     const char* fn = g_fn;
     const int n = g_nargs;
-    const bool isf = std::strncmp(fn, "float2half", 10) == 0;
-    std::vector<std::string> rp = RP(fn, {hx(g_a, isf ? 8 : 4)});
+    const bool isf = std::strncmp(fn, "float2half", 10) == 0, isd = std::strncmp(fn, "double2half", 11) == 0;
+    std::vector<std::string> rp = RP(fn, {isd ? hx(g_a64, 16) : hx(g_a, isf ? 8 : 4)});
     std::string ops = rp[2];
     if (n >= 2) { rp.push_back(hx(g_b, 4)); ops += " " + rp.back(); }
     if (n >= 3) { rp.push_back(hx(g_c, 4)); ops += " " + rp.back(); }
@@ -127,11 +128,13 @@ static void install_handlers()
 enum
 {
     S_F2H, S_F2H_ASSIGN, S_H2F, S_H2F_CAST, S_H2D, S_H2D_CAST, S_SQRT, S_CLASS, S_NEG, S_FABS, S_HASH,
-    S_ADD, S_SUB, S_MUL, S_DIV, S_CMP, S_COPYSIGN, S_FMA, S_FMAD, S_NSTREAM
+    S_ADD, S_SUB, S_MUL, S_DIV, S_CMP, S_COPYSIGN, S_FMA, S_FMAD,
+    S_NF_D_CAST, S_NF_D_CAST_RN, S_NF_D_CTOR, S_NF_D_ASSIGN, S_NF_F_CTOR, S_NF_F_ASSIGN, S_NF_F_CAST, S_NSTREAM
 };
 static const char* const stream_name[S_NSTREAM] = {
     "float2half", "float2half_assign", "half2float", "half2float_cast", "half2double", "half2double_cast", "sqrt", "classify", "neg", "fabs", "hash",
-    "add", "sub", "mul", "div", "cmp", "copysign", "fma", "fma_derived"};
+    "add", "sub", "mul", "div", "cmp", "copysign", "fma", "fma_derived",
+    "double2half_cast", "double2half_cast_rn", "double2half_ctor", "double2half_assign", "float2half_nan_ctor", "float2half_nan_assign", "float2half_nan_cast"};
 
 struct stream_t
 {
@@ -153,7 +156,7 @@ static __attribute__((noinline, cold)) void emit_slow(int sid, uint64_t canon)
     if (g_sub != g_dump_sub) return;
     if (g_dump_file) { std::fwrite(&canon, dump_width(sid), 1, g_dump_file); }   // little endian: the low bytes
     if (g_nth >= 0 && (long long)g_st[sid].n == g_nth)
-        std::printf("@@{\"t\":\"nth\",\"stream\":\"%s\",\"n\":%d,\"a\":\"0x%x\",\"b\":\"0x%x\",\"c\":\"0x%x\"}\n", stream_name[sid], (int)g_nargs, (unsigned)g_a, (unsigned)g_b, (unsigned)g_c);
+        std::printf("@@{\"t\":\"nth\",\"stream\":\"%s\",\"n\":%d,\"a\":\"0x%x\",\"b\":\"0x%x\",\"c\":\"0x%x\",\"a64\":\"0x%016llx\"}\n", stream_name[sid], (int)g_nargs, (unsigned)g_a, (unsigned)g_b, (unsigned)g_c, (unsigned long long)g_a64);
 }
 // canon: value with NaN results canonicalised (verdict); raw: the exact bits (information only)
 static inline void emit(int sid, uint64_t canon, uint64_t raw)
@@ -832,6 +835,112 @@ static void mode_fmad(char set, int shard, int nshard)
     flush_streams();
 }
 
+// ------------------------------------------------------------------ NaN / infinity boundary family (double -> half and float -> half)
+// "NaN-to-NaN" and "infinity stays infinity" for every entry point that takes a double or a float. Inputs: both signs, exponent
+// field all ones, a structured set of mantissa patterns. Oracle: mantissa == 0 -> exactly +-inf; otherwise a half NaN
+// (exponent all ones, mantissa != 0) with the sign of the operand. Rounding of finite doubles is NOT judged here (see mode_info).
+NOINL static uint16_t impl_d2h_cast(double d) { return bits(half_float::half_cast<H>(d)); }
+NOINL static uint16_t impl_d2h_cast_rn(double d) { return bits(half_float::half_cast<H, std::round_to_nearest>(d)); }
+NOINL static uint16_t impl_d2h_ctor(double d) { H h(d); return bits(h); }
+NOINL static uint16_t impl_d2h_assign(double d) { H h; h = d; return bits(h); }
+static inline double mkd(uint64_t b) { double d; std::memcpy(&d, &b, 8); return d; }
+
+static std::vector<uint64_t> nan_mantissas(int mbits)
+{
+    std::vector<uint64_t> v;
+    const uint64_t all = (1ull << mbits) - 1, quiet = 1ull << (mbits - 1);
+    auto add = [&](uint64_t m) { m &= all; for (uint64_t x : v) if (x == m) return; v.push_back(m); };
+    add(0);                                                    // infinity
+    for (int i = 0; i < mbits; ++i) add(1ull << i);            // every single mantissa bit
+    for (int i = 0; i < mbits; ++i) for (int j = i + 1; j < mbits; ++j) add((1ull << i) | (1ull << j));   // every pair of bits
+    add(all); add(all ^ quiet); add(all >> 1); add(all >> 2);
+    if (mbits == 52)
+    {
+        const uint64_t low[] = {1, 2, 0xFFFFFFFFull, 0x12345678ull, 0x80000000ull, 0x0000FFFFull, 0xFFFF0000ull, 0xAAAAAAAAull, 0x55555555ull, 0x7FFFFFFFull, 0xDEADBEEFull};
+        const uint64_t high[] = {0x00001, 0x00002, 0x003FF, 0x00400, 0x40000, 0x7FFFF, 0x12345, 0xAAAAA & 0x7FFFF, 0x55555, 0x3FC00};   // upper 20 bits, quiet bit clear
+        for (uint64_t l : low) { add(l); add(quiet | l); }                                  // low word only, quiet bit off / on
+        for (uint64_t h : high) { add(h << 32); add(quiet | (h << 32)); }                   // high word only
+        for (uint64_t l : low) for (uint64_t h : high) { add((h << 32) | l); add(quiet | (h << 32) | l); }
+        // the half keeps the top 10 mantissa bits: patterns just below / at that boundary
+        for (int i = 40; i <= 43; ++i) { add((1ull << i) - 1); add(quiet | ((1ull << i) - 1)); }
+    }
+    else
+    {
+        const uint64_t pat[] = {0x1FFF, 0x2000, 0x0FFF, 0x1000, 0x123456, 0x2AAAAA, 0x155555, 0x3FFFFF, 0x00FFFF, 0x3F0000};
+        for (uint64_t x : pat) { add(x); add(quiet | x); }
+    }
+    return v;
+}
+static const char* payload_class(uint64_t m, int mbits)
+{
+    if (m == 0) return "inf";
+    const bool q = (m >> (mbits - 1)) & 1;
+    if (mbits == 52)
+    {
+        const bool lo = (m & 0xFFFFFFFFull) != 0, hi = ((m >> 32) & 0x7FFFF) != 0;
+        if (q) return lo && !hi ? "qnan:low-word-payload" : "qnan";
+        return lo && !hi ? "snan:low-word-only" : hi && !lo ? "snan:high-word-only" : "snan:both-words";
+    }
+    if (q) return "qnan";
+    return (m >> 13) ? "snan:payload-in-kept-bits" : "snan:payload-only-in-dropped-bits";
+}
+static void judge_nanfam(const char* fn, int sid, bool is_double, uint64_t in, uint16_t got)
+{
+    const int mbits = is_double ? 52 : 23;
+    const uint64_t m = in & ((1ull << mbits) - 1);
+    const unsigned sign = unsigned(in >> (is_double ? 63 : 31)) & 1u;
+    ++g_eval;
+    const uint16_t e = uint16_t((sign << 15) | (m ? 0x7E00 : 0x7C00));
+    const bool ok = m ? (href::is_nan16(got) && unsigned(got >> 15) == sign) : (got == e);
+    if (!ok)
+    {
+        const char* kind = m ? (href::is_nan16(got) ? "nan-sign-lost" : href::is_inf16(got) ? "nan-became-infinity" : "nan-became-finite") : "infinity-not-preserved";
+        const std::string arg = hx(in, is_double ? 16 : 8);
+        vf::violation(std::string("C08/") + fn + "." C08_PATH + g_sfx + "/" + payload_class(m, mbits) + "/" + kind,
+                      std::string("[") + BLD() + "] " + fn + "(" + (is_double ? "double " : "float ") + arg + ", " + (m ? "a NaN" : "an infinity") + ") returned " + h2s(got) + ", expected " +
+                          (m ? std::string("a half NaN with sign bit ") + (sign ? "1" : "0") : h2s(e)),
+                      RP(fn, {arg}));
+    }
+    const uint16_t canon = href::is_nan16(got) ? uint16_t((got & 0x8000) | 0x7E00) : got;
+    emit(sid, canon, got);
+    if (g_verbose) std::printf("@@{\"t\":\"res\",\"fn\":\"%s\",\"v\":\"%04x\"}\n", fn, canon);
+}
+static void one_nan_double(uint64_t b, const char* only = nullptr)
+{
+    g_a64 = b;
+    g_a = uint32_t(b);
+    g_nargs = 1;
+    const double d = mkd(b);
+    auto want = [&](const char* fn) { return !only || std::strcmp(only, fn) == 0; };
+    if (want("double2half_cast")) { CUR("double2half_cast"); judge_nanfam("double2half_cast", S_NF_D_CAST, true, b, impl_d2h_cast(d)); ASAN_CHECK("double2half_cast"); }
+    if (want("double2half_cast_rn")) { CUR("double2half_cast_rn"); judge_nanfam("double2half_cast_rn", S_NF_D_CAST_RN, true, b, impl_d2h_cast_rn(d)); }
+    if (want("double2half_ctor")) { CUR("double2half_ctor"); judge_nanfam("double2half_ctor", S_NF_D_CTOR, true, b, impl_d2h_ctor(d)); }
+    if (want("double2half_assign")) { CUR("double2half_assign"); judge_nanfam("double2half_assign", S_NF_D_ASSIGN, true, b, impl_d2h_assign(d)); }
+}
+static void one_nan_float(uint32_t b, const char* only = nullptr)
+{
+    g_a = b;
+    g_nargs = 1;
+    const float f = mkf(b);
+    auto want = [&](const char* fn) { return !only || std::strcmp(only, fn) == 0; };
+    if (want("float2half_nan_ctor")) { CUR("float2half_nan_ctor"); judge_nanfam("float2half_nan_ctor", S_NF_F_CTOR, false, b, impl_f2h_ctor(f)); }
+    if (want("float2half_nan_assign")) { CUR("float2half_nan_assign"); judge_nanfam("float2half_nan_assign", S_NF_F_ASSIGN, false, b, impl_f2h_assign(f)); }
+    if (want("float2half_nan_cast")) { CUR("float2half_nan_cast"); judge_nanfam("float2half_nan_cast", S_NF_F_CAST, false, b, impl_f2h_cast(f)); }
+}
+static void mode_nanfam()
+{
+    const std::vector<uint64_t> md = nan_mantissas(52), mf = nan_mantissas(23);
+    for (uint64_t sgn = 0; sgn < 2; ++sgn)
+        for (uint64_t m : md) one_nan_double((sgn << 63) | (0x7FFull << 52) | m);
+    for (uint32_t sgn = 0; sgn < 2; ++sgn)
+        for (uint64_t m : mf) one_nan_float((sgn << 31) | 0x7F800000u | uint32_t(m));
+    vf::stat(std::string("nan_inf_family_doubles_" C08_BUILD) + g_sfx, 2 * (long long)md.size());
+    vf::stat(std::string("nan_inf_family_floats_" C08_BUILD) + g_sfx, 2 * (long long)mf.size());
+    flush_streams();
+    std::printf("@@{\"t\":\"xs\",\"k\":\"nanfam/0\",\"v\":\"half_cast<half>(double 0x7ff0000000000001, signalling NaN with a low-word-only payload) == %s ; half_cast<half>(double 0xfff0000000000000) == %s\"}\n",
+                h2s(impl_d2h_cast(mkd(0x7FF0000000000001ull))).c_str(), h2s(impl_d2h_cast(mkd(0xFFF0000000000000ull))).c_str());
+}
+
 // ------------------------------------------------------------------ information only: double -> half, integer <-> half
 static void mode_info()
 {
@@ -989,7 +1098,9 @@ static int run_one(int argc, char** argv, int i)
     for (int k = 0; k < nops && k < 3; ++k) v[k] = parse_u(argv[i + 1 + k]);
     g_a = v[0]; g_b = v[1]; g_c = v[2];
     g_nargs = nops;
-    if (fn == "float2half" || fn == "float2half_assign")
+    if (fn.compare(0, 11, "double2half") == 0) one_nan_double(std::strtoull(argv[i + 1], nullptr, 0), fn.c_str());
+    else if (fn.compare(0, 14, "float2half_nan") == 0) one_nan_float(v[0], fn.c_str());
+    else if (fn == "float2half" || fn == "float2half_assign")
     {
         one_f2h(v[0], true);
         uint16_t r3 = impl_f2h_cast(mkf(v[0]));
@@ -1090,6 +1201,7 @@ int main(int argc, char** argv)
     else if (mode == "fma") mode_fma(alpha == "t" ? F1024 : alpha == "s" ? F64 : A512, shard, nshard);
     else if (mode == "fmad") mode_fmad(alpha[0], shard, nshard);
     else if ((mode == "info" || mode == "selftest") && g_fenv_mode >= 0 && g_fenv_mode != FE_TONEAREST) { std::fprintf(stderr, "double based modes run under FE_TONEAREST only\n"); return 3; }
+    else if (mode == "nanfam") mode_nanfam();
     else if (mode == "info") mode_info();
     else if (mode == "selftest") mode_selftest();
     else { std::fprintf(stderr, "unknown mode\n"); return 3; }
